@@ -1,5 +1,6 @@
 /- Line-protocol front end for the stream-structure model (`vd` lines). -/
 import VC2.Model.Stream
+import VC2.Model.StreamSpec
 import VC2.Model.SymReDriver
 namespace VC2.Model.Stream
 open VC2 VC2.Model.SymRe
@@ -39,6 +40,23 @@ def handleVd (ws : List String) : String :=
       | some us =>
         let (v, pics) := validate { slicesX := sx, slicesY := sy, levelPattern := ast } us
         showVerdict v ++ " pics=" ++ ",".intercalate (pics.map toString)
+      | none => "bad-op"
+    | _, _, _, _ => "bad-op"
+  | _ => "bad-op"
+
+/-- `cs …` (same arguments as `vd`): the rule-level specification on the same history -/
+def handleCs (ws : List String) : String :=
+  let (hd, tl) := ws.span (· != "::")
+  match hd with
+  | _hq :: pcm :: sx :: sy :: pat =>
+    match pcm.toNat?, sx.toNat?, sy.toNat?, (parseRegex (pat.map tokOf)).toOption with
+    | some _pcm, some sx, some sy, some ast =>
+      let units := (splitOnTok (tl.drop 1) ";").filter (fun u => u != ["/"] && !u.isEmpty)
+      match units.mapM (fun u => parseUnit (u.filter (· != "/"))) with
+      | some us =>
+        let wf := us.all VC2.Model.StreamSpec.unitWF && VC2.Model.StreamSpec.hdrsAgree none us
+        let c := VC2.Model.StreamSpec.conformant { slicesX := sx, slicesY := sy, levelPattern := ast } us
+        s!"wf={if wf then 1 else 0} conf={if c then 1 else 0}"
       | none => "bad-op"
     | _, _, _, _ => "bad-op"
   | _ => "bad-op"
